@@ -67,6 +67,9 @@ pub fn schema_ty<T: FullS>(g: &mut Gen, b: &Budget, out: &mut Sink) {
     // the specification's verdict on the reported bound
     out.case(&format!("contchk lax {} {}", hex(&bs), m.replace(' ', "_").replace('(', "").replace(')', "")), "ok");
     out.case(&format!("contval lax {} {}", hex(&bs), v.replace(' ', "_").replace('(', "").replace(')', "")), "ok");
+    // the tightness theorem's hypothesis holds for the container of every Rust type
+    out.case(&format!("contread {}", hex(&bs)), &format!("readable={}", readable(&c)));
+    out.oracle("C09", readable(&c), &case, "the container of a Rust type has a definition that cannot be read (empty enum, repeated or out-of-range discriminant, range that does not fit its width)");
     // C08: the container defines every declaration it references (no MissingDefinition) and validates
     // unless the type has a zero-sized-element collection
     out.oracle("C08", !v.starts_with("(missing") && !m.starts_with("(missing"), &case, &format!("{} {}", v, m));
@@ -463,6 +466,25 @@ pub fn gen_chain_container(g: &mut Gen) -> BorshSchemaContainer {
     BorshSchemaContainer::new("A".to_string(), defs)
 }
 
+/// every definition can actually be read (hypothesis of the tightness theorem `C09_tight`; the same
+/// predicate as `Container.readable` in the model, compared line by line)
+pub fn readable(c: &BorshSchemaContainer) -> bool {
+    let fits = |x: u128, w: u8| w >= 16 || x < (1u128 << (8 * w as u32));
+    c.definitions().all(|(_, d)| match d {
+        Definition::Sequence { length_width, length_range, .. } => {
+            let (lo, hi) = (*length_range.start(), *length_range.end());
+            if *length_width == 0 { lo == hi } else { lo <= hi && fits(hi as u128, *length_width) }
+        }
+        Definition::Enum { tag_width, variants } => {
+            let mut ds: Vec<i64> = variants.iter().map(|v| v.0).collect();
+            ds.sort();
+            let distinct = ds.windows(2).all(|w| w[0] != w[1]);
+            !variants.is_empty() && distinct && variants.iter().all(|v| v.0 >= 0 && fits(v.0 as u128, *tag_width))
+        }
+        _ => true,
+    })
+}
+
 pub fn one_container(c: &BorshSchemaContainer, out: &mut Sink) {
     let (_, bs) = enc_obs(c);
     let Some(bs) = bs else { return };
@@ -489,6 +511,7 @@ pub fn one_container(c: &BorshSchemaContainer, out: &mut Sink) {
     out.oracle("C09", m != "panic", &case, "max_serialized_size panicked");
     out.case(&format!("contchk {} {} {}", MODE, hex(&bs), m.replace(' ', "_").replace('(', "").replace(')', "")), "ok");
     out.case(&format!("contval {} {} {}", MODE, hex(&bs), v.replace(' ', "_").replace('(', "").replace(')', "")), "ok");
+    out.case(&format!("contread {}", hex(&bs)), &format!("readable={}", readable(&c2)));
 }
 
 /// committed corpus: witnesses of the (repaired) findings F1-F3 and other minimised shapes
